@@ -28,7 +28,7 @@ def gen_case(rng):
                 coef=[rng.choice([-2, -1, 1, 2, 3]) * rng.choice([0.5, 1.0]) for _ in range(12)],
                 bounds=rng.choice(['fixed', 'update', 'update', 'estimate']),
                 guess=rng.choice(['exact', 'wide', 'narrow', 'narrower', 'offset']),
-                norm=rng.choice([None, None, 'linear(0.5, 1)', 'minmax']))
+                norm=rng.choice([None, None, 'linear(0.5, 1)', 'minmax', 'zscore', 'linear(1, 300)']))
 
 
 def true_ranges(case):
@@ -89,6 +89,10 @@ def build(case):
         return (a + 0.6 * w, b + 0.6 * w)   # offset
 
     def cv(name, k):
+        if case['norm'] == 'zscore':
+            # z-score of a coupling variable declared with a Normal distribution (mean / deviation fixed by the declaration)
+            g = guess(k)
+            return Variable(name, domain=g, distribution=f'N({(g[0] + g[1]) / 2}, {(g[1] - g[0]) / 6})', norm='zscore')
         return Variable(name, domain=guess(k), norm=case['norm'])
     sg = lambda: SparseGrid(**SG)   # noqa: E731
     if topo == 'chain2':
@@ -208,13 +212,20 @@ def run(ctx: core.Ctx, only=None) -> core.Result:
     res = core.Result()
     res.rule = ('polynomial systems (2- and 3-component chains, a 4-component diamond, an affine 2-component feedback loop with '
                 'a downstream component), trained to exhaustion with bound options fixed/update_bounds/estimate_bounds x initial '
-                'coupling-domain guesses exact/too wide/too narrow (x0.5, x0.1)/offset x coupling normalisation none/linear/'
-                'minmax; System.predict vs the exact composition / linear solve at random inputs (1e-7 relative), and every '
+                'coupling-domain guesses exact/too wide/too narrow (x0.5, x0.1)/offset x coupling normalisation none/linear (also with a large offset)/'
+                'minmax/zscore; System.predict vs the exact composition / linear solve at random inputs (1e-7 relative), and every '
                 'interpolator state\'s weights vs true barycentric weights. non-trivial = a coupling domain moved during '
                 'training.')
     lines, post = [], []
     cases = [o.get('input', o) for o in only] if only is not None else core.corpus_cases('C04') + \
         [gen_case(ctx.rng) for _ in range(ctx.scale(12, 150))]
+    if only is None:
+        # designed: z-score / far-offset coupling normalisations whose bounds MOVE during training
+        for k in range(ctx.scale(3, 12)):
+            c_ = gen_case(ctx.rng)
+            c_.update(norm=['zscore', 'zscore', 'linear(1, 300)'][k % 3], bounds='update', guess=['narrow', 'offset', 'narrower'][k % 3],
+                      topo=['chain2', 'chain3', 'diamond', 'loop2'][k % 4])
+            cases.append(c_)
     keys = ('topo', 'seed', 'coef', 'bounds', 'guess', 'norm')
     for case in cases:
         case = {k: case[k] for k in keys}
